@@ -21,6 +21,7 @@ pub mod c14;
 pub mod c15;
 pub mod c16;
 pub mod c16legs;
+pub mod c17;
 pub mod c18;
 
 /// generator entry points shared with C14
@@ -50,6 +51,7 @@ pub fn run(ctx: &Ctx) -> i32 {
         "C14" => c14::run(ctx),
         "C15" => c15::run(ctx),
         "C16" => c16::run(ctx),
+        "C17" => c17::run(ctx),
         "C18" => c18::run(ctx),
         other => {
             eprintln!("unknown property {}", other);
@@ -78,6 +80,7 @@ pub fn replay(ctx: &Ctx, v: &Value) -> i32 {
         "C14" => c14::replay(ctx, case),
         "C15" => c15::replay(ctx, case),
         "C16" => c16::replay(ctx, case),
+        "C17" => c17::replay(ctx, case),
         "C18" => c18::replay(ctx, case),
         other => {
             eprintln!("unknown property {}", other);
